@@ -128,13 +128,15 @@ func (l AbstractListSchema[ItemType]) Unserialize(data any) (any, error) {
 func (l AbstractListSchema[ItemType]) ValidateCompatibility(typeOrData any) error {
 	// Check if it's a schema.Type. If it is, verify it. If not, verify it as data.
 	value := reflect.ValueOf(typeOrData)
-	valueKind := reflect.Indirect(value).Kind()
+	indirectValue := reflect.Indirect(value)
+	valueKind := indirectValue.Kind()
 	// Check if it's just a list, if so, validate the individual items.
 	if valueKind == reflect.Slice {
 		// We don't know the type of the list, so just use reflection to get any values.
-		lengthOfSlice := value.Len()
+		// The kind was taken from the indirected value, so a pointer to a slice must be read through it too.
+		lengthOfSlice := indirectValue.Len()
 		for i := 0; i < lengthOfSlice; i++ {
-			itemInList := value.Index(i).Interface()
+			itemInList := indirectValue.Index(i).Interface()
 			err := l.ItemsValue.ValidateCompatibility(itemInList)
 			if err != nil {
 				return ConstraintErrorAddPathSegment(err, fmt.Sprintf("[%d]", i))
